@@ -30,6 +30,7 @@ pub struct FileState {
     path: String,
     persister: Arc<PersisterKind>,
     encryptor: Option<Arc<EncryptorKind>>,
+    apply_lock: tokio::sync::Mutex<()>,
 }
 
 impl FileState {
@@ -47,6 +48,7 @@ impl FileState {
             path: path.into(),
             persister,
             encryptor,
+            apply_lock: tokio::sync::Mutex::new(()),
             version: version.get_numeric_version().expect("Invalid version"),
         }
     }
@@ -291,11 +293,14 @@ impl State for FileState {
 
     async fn apply(&self, user_id: u32, command: EntryCommand) -> Result<(), IggyError> {
         debug!("Applying state entry with command: {command}, user ID: {user_id}");
+        // Commands are applied concurrently (e.g. purges under the shared system lock): entries must
+        // reach the file in index order, and a failed append must not consume an index.
+        let _apply_guard = self.apply_lock.lock().await;
         let timestamp = IggyTimestamp::now();
         let index = if self.entries_count.load(Ordering::SeqCst) == 0 {
             0
         } else {
-            self.current_index.fetch_add(1, Ordering::SeqCst) + 1
+            self.current_index.load(Ordering::SeqCst) + 1
         };
         let term = self.term.load(Ordering::SeqCst);
         let current_leader = self.current_leader.load(Ordering::SeqCst);
@@ -349,7 +354,6 @@ impl State for FileState {
             command,
         );
         let bytes = entry.to_bytes();
-        self.entries_count.fetch_add(1, Ordering::SeqCst);
         #[cfg(feature = "verif")]
         crate::verif::sched_point("state_apply_before_append").await;
         self.persister
@@ -362,6 +366,8 @@ impl State for FileState {
                     bytes.len()
                 )
             })?;
+        self.current_index.store(index, Ordering::SeqCst);
+        self.entries_count.fetch_add(1, Ordering::SeqCst);
         debug!("Applied state entry: {entry}");
         Ok(())
     }
